@@ -63,6 +63,29 @@ Theorem C03_fragmented_message : forall c st fuel comp op lf0 k0 p0 cs0 mids lfl
      snd (as_run W (complete utf8_valid inflate W wdict wwrite (scfg_of c) (r_dps W st) op comp payload)))
     (read_stream utf8_valid inflate W wdict wwrite fuel c st (enc_stream wire)).
 Proof. exact (reader_fragmented_message utf8_valid inflate W wdict wwrite). Qed.
+
+(* Tie to the source.  The header checks of readMessage - read limit, reserved bits, mask bit against the role, RSV1 on
+   control/continuation frames, dispatch of control frames - are regenerated from reader.go on every run as the ladder
+   gf_gws_Conn_readMessage (Gen/Funcs.v: the leading statements of readMessage up to the first buffer operation, with
+   checkMask and Opcode.isDataFrame translated too).  Fed with the header the model parsed, the ladder says what the
+   model does: a positive value is the status the model fails with, -1 means the model runs readControl, 0 means every
+   header check passed for a data frame.  A reordered, dropped, added or altered check in the source breaks this. *)
+Theorem C03_header_checks_from_source : forall c st bs h rest,
+  parse_header bs = POk h rest ->
+  let g := gen_guards c h in
+  (0 < g -> read_message utf8_valid inflate W wdict wwrite c st bs = SStop W [] (OFail W (Z.to_N g)))%Z
+  /\ (g = -1 -> read_message utf8_valid inflate W wdict wwrite c st bs = read_control utf8_valid W c st h rest)%Z
+  /\ (g = 0 -> is_data_op (get_opcode (h_b0 h)) = true
+               /\ ((h_len h <? 0) || (h_len h >? r_limit c))%Z = false
+               /\ (get_rsv2 (h_b0 h) || get_rsv3 (h_b0 h) || (get_rsv1 (h_b0 h) && negb (r_pmd c))) = false
+               /\ ((r_server c && negb (get_mask (h_b1 h))) || (negb (r_server c) && get_mask (h_b1 h))) = false)%Z
+  /\ (g = 1009 \/ g = 1002 \/ g = -1 \/ g = 0)%Z.
+Proof. exact (read_message_guards_from_source utf8_valid inflate W wdict wwrite). Qed.
+
+Theorem C03_control_checks_from_source : forall c st h rest,
+  let g := gf_gws_Conn_readControl (get_fin (h_b0 h)) (Z.of_N (get_lencode (h_b1 h))) in
+  (g = 1002 \/ g = 0)%Z /\ (g = 1002%Z -> read_control utf8_valid W c st h rest = SStop W [] (OFail W 1002)).
+Proof. exact (read_control_guards_from_source utf8_valid inflate W wwrite). Qed.
 End C03.
 
 (* Tie to the source: the header accessors the reader model uses (FIN, RSV1-3, opcode, mask bit, length code) are the
@@ -102,3 +125,5 @@ Print Assumptions C03_stream_refines.
 Print Assumptions C03_control_inside_fragments.
 Print Assumptions C03_fragmented_message.
 Print Assumptions C03_header_accessors_from_source.
+Print Assumptions C03_header_checks_from_source.
+Print Assumptions C03_control_checks_from_source.
